@@ -64,7 +64,7 @@ def quiet_library_logging() -> None:
 
 
 def jsonable(x: Any, depth: int = 0) -> Any:
-    if depth > 6:
+    if depth > 12:
         return repr(x)[:200]
     if isinstance(x, (str, int, float, bool)) or x is None:
         return x
